@@ -3,309 +3,17 @@ package c04
 import (
 	"fmt"
 	"testing"
-	"unsafe"
 
 	"github.com/flowmatters/openwater-core/data"
-	"github.com/flowmatters/openwater-core/data/cdata"
 	"pgregory.net/rapid"
 	"verif/harness/pbt"
 	"verif/harness/simref"
+	"verif/harness/vrun"
 )
 
 func TestMain(m *testing.M) { pbt.Main(m, "C04") }
 
-const sentinel = -777.25
-
-type Case struct {
-	Model      string
-	N, T       int
-	Cells      [][][]pbt.F        // P parameter sets
-	Inputs     [][][]pbt.F        // B input blocks [nInputs][T]
-	States     []simref.StateSpec // N state rows (own width each)
-	ExtraCells int
-	ExtraT     int
-	ExtraState int
-	CBacked    bool
-}
-
-func toCell(c [][]pbt.F) simref.Cell {
-	r := make(simref.Cell, len(c))
-	for i := range c {
-		r[i] = pbt.Floats(c[i])
-	}
-	return r
-}
-
-func fromCell(c simref.Cell) [][]pbt.F {
-	r := make([][]pbt.F, len(c))
-	for i := range c {
-		r[i] = pbt.Fs(c[i])
-	}
-	return r
-}
-
-// count draws how many sets to supply for n cells: n, 1, a divisor, a number coprime with n, n-1.
-func count(t *rapid.T, n int, label string) int {
-	opts := []int{n, n, 1}
-	for d := 2; d < n; d++ {
-		if n%d == 0 {
-			opts = append(opts, d)
-		}
-	}
-	for d := 2; d < n; d++ {
-		if gcd(d, n) == 1 {
-			opts = append(opts, d)
-		}
-	}
-	if n > 1 {
-		opts = append(opts, n-1)
-	}
-	return rapid.SampledFrom(opts).Draw(t, label)
-}
-
-func gcd(a, b int) int {
-	for b != 0 {
-		a, b = b, a%b
-	}
-	return a
-}
-
-func genFor(model string) func(t *rapid.T) Case {
-	return func(t *rapid.T) Case {
-		name := model
-		if name == "" {
-			name = rapid.SampledFrom(simref.Names()).Draw(t, "model")
-		}
-		maxN, maxT := 8, 40
-		c := Case{Model: name, N: rapid.IntRange(1, maxN).Draw(t, "N"), T: rapid.IntRange(1, maxT).Draw(t, "T")}
-		P := count(t, c.N, "P")
-		B := count(t, c.N, "B")
-		cells := make([]simref.Cell, P)
-		for i := range cells {
-			cells[i] = simref.DrawCell(t, name)
-		}
-		if name == "RatingCurvePartition" {
-			commonRange(cells)
-		}
-		for i := range cells {
-			c.Cells = append(c.Cells, fromCell(cells[i]))
-		}
-		for b := 0; b < B; b++ {
-			blk := simref.DrawInputs(t, name, cells[b%P], c.T)
-			fb := make([][]pbt.F, len(blk))
-			for i := range blk {
-				fb[i] = pbt.Fs(blk[i])
-			}
-			c.Inputs = append(c.Inputs, fb)
-		}
-		for i := 0; i < c.N; i++ {
-			c.States = append(c.States, simref.DrawStates(t, name, cells[i%P]))
-		}
-		if rapid.IntRange(0, 2).Draw(t, "bigger") == 0 {
-			c.ExtraCells = rapid.IntRange(0, 2).Draw(t, "xc")
-			c.ExtraT = rapid.IntRange(0, 3).Draw(t, "xt")
-		}
-		c.ExtraState = rapid.SampledFrom([]int{0, 0, 0, 1, 3}).Draw(t, "xs")
-		c.CBacked = rapid.IntRange(0, 3).Draw(t, "cbacked") == 0
-		return c
-	}
-}
-
-// commonRange rescales every cell's rating table to the same [first,last] range, so that an
-// input block drawn for one cell is inside the table of every cell that reads it (outside the
-// table the model is not defined: it panics).
-func commonRange(cells []simref.Cell) {
-	desc := simref.New("RatingCurvePartition").Description()
-	ai := simref.ParamIndex(desc, "inputAmount")
-	ref := cells[0][ai]
-	lo, hi := ref[0], ref[len(ref)-1]
-	for _, c := range cells[1:] {
-		tab := c[ai]
-		a, b := tab[0], tab[len(tab)-1]
-		for k := range tab {
-			tab[k] = lo + (tab[k]-a)*(hi-lo)/(b-a)
-		}
-		tab[0], tab[len(tab)-1] = lo, hi
-	}
-}
-
-type buf struct {
-	mem []float64
-	c   *cmem
-}
-
-// arrays either over Go slices or over C memory (mmap'd, outside the Go heap)
-func array3(vals []float64, d0, d1, d2 int, c bool) (data.ND3Float64, func() []float64, func()) {
-	if !c {
-		s := append([]float64(nil), vals...)
-		return data.ArrayFromSliceFloat64(s, []int{d0, d1, d2}).(data.ND3Float64), func() []float64 { return s }, func() {}
-	}
-	m := newCMem(vals)
-	return cdata.NewFloat64CArray(m.ptr(), []int{d0, d1, d2}).(data.ND3Float64), m.read, m.free
-}
-
-func array2(vals []float64, d0, d1 int, c bool) (data.ND2Float64, func() []float64, func()) {
-	if !c {
-		s := append([]float64(nil), vals...)
-		return data.ArrayFromSliceFloat64(s, []int{d0, d1}).(data.ND2Float64), func() []float64 { return s }, func() {}
-	}
-	m := newCMem(vals)
-	return cdata.NewFloat64CArray(m.ptr(), []int{d0, d1}).(data.ND2Float64), m.read, m.free
-}
-
-func check(c Case) (r pbt.Result) {
-	m := simref.New(c.Model)
-	desc := m.Description()
-	P, B := len(c.Cells), len(c.Inputs)
-	cells := make([]simref.Cell, P)
-	for i := range cells {
-		cells[i] = toCell(c.Cells[i])
-	}
-	nI, nO := len(desc.Inputs), len(desc.Outputs)
-	r.Label("model:" + c.Model)
-	tableLens := map[int]bool{}
-	for _, cl := range cells {
-		for i, p := range desc.Parameters {
-			if len(p.Dimensions) > 0 {
-				tableLens[len(cl[i])] = true
-			}
-		}
-	}
-	if c.N >= 2 && (P < c.N || B < c.N || len(tableLens) > 1) {
-		r.NonTrivial = true
-	}
-	r.Key = fmt.Sprintf("%s|%d|%d|%d|%d|%d|%d|%v|%v", c.Model, c.N, P, B, c.T, c.ExtraCells, c.ExtraT, c.CBacked, c.Cells)
-	if P < c.N {
-		r.Label("P<N")
-	}
-	if B < c.N {
-		r.Label("B<N")
-	}
-	if len(tableLens) > 1 {
-		r.Label("table-lengths-differ")
-	}
-	if c.CBacked {
-		r.Label("c-backed")
-	}
-	if c.ExtraCells+c.ExtraT > 0 {
-		r.Label("outputs-larger-than-needed")
-	}
-
-	// --- reference: every cell alone -----------------------------------------
-	width := 0
-	resolved := make([][]float64, c.N)
-	for i, s := range c.States {
-		resolved[i] = s.Resolve(c.Model, cells[i%P])
-		if len(resolved[i]) > width {
-			width = len(resolved[i])
-		}
-	}
-	width += c.ExtraState
-	stateRows := make([][]float64, c.N)
-	for i := range stateRows {
-		row := make([]float64, width)
-		copy(row, resolved[i])
-		stateRows[i] = row
-	}
-	blocks := make([][][]float64, B)
-	for b := range blocks {
-		blocks[b] = make([][]float64, nI)
-		for i := 0; i < nI; i++ {
-			blocks[b][i] = pbt.Floats(c.Inputs[b][i])
-		}
-	}
-	// the whole-file dimension (max table length over all cells) is what the drivers pass to
-	// InitialiseDimensions; the single-cell reference uses the cell's own table padded to it
-	refOut := make([][][]float64, c.N)
-	refState := make([][]float64, c.N)
-	for i := 0; i < c.N; i++ {
-		var st []float64
-		if width > 0 {
-			st = append([]float64(nil), stateRows[i]...)
-		} else {
-			st = []float64{}
-		}
-		refOut[i], refState[i] = simref.Run1(c.Model, cells[i%P], blocks[i%B], st)
-	}
-
-	// --- vectorised run ------------------------------------------------------
-	pm := simref.ParamMatrix(desc, cells)
-	pmRows := pm.Len(0)
-	pmFlat := append([]float64(nil), pm.Unroll()...)
-	parr, pread, pfree := array2(pmFlat, pmRows, P, c.CBacked)
-	defer pfree()
-	inFlat := make([]float64, 0, B*nI*c.T)
-	for b := 0; b < B; b++ {
-		for i := 0; i < nI; i++ {
-			inFlat = append(inFlat, blocks[b][i]...)
-		}
-	}
-	iarr, iread, ifree := array3(inFlat, B, nI, c.T, c.CBacked)
-	defer ifree()
-	stFlat := make([]float64, 0, c.N*width)
-	for i := 0; i < c.N; i++ {
-		stFlat = append(stFlat, stateRows[i]...)
-	}
-	sarr, sread, sfree := array2(stFlat, c.N, width, c.CBacked)
-	defer sfree()
-	oN, oT := c.N+c.ExtraCells, c.T+c.ExtraT
-	outFlat := make([]float64, oN*nO*oT)
-	for ci := 0; ci < oN; ci++ {
-		for o := 0; o < nO; o++ {
-			for k := 0; k < oT; k++ {
-				if ci >= c.N || k >= c.T {
-					outFlat[(ci*nO+o)*oT+k] = sentinel
-				}
-			}
-		}
-	}
-	oarr, oread, ofree := array3(outFlat, oN, nO, oT, c.CBacked)
-	defer ofree()
-
-	simref.Prepare(m, parr)
-	m.Run(iarr, sarr, oarr)
-
-	got := oread()
-	for ci := 0; ci < oN; ci++ {
-		for o := 0; o < nO; o++ {
-			for k := 0; k < oT; k++ {
-				g := got[(ci*nO+o)*oT+k]
-				if ci >= c.N || k >= c.T {
-					if g != sentinel {
-						r.Failf("%s: output[cell %d, %s, t %d] outside the run region was overwritten with %v", c.Model, ci, desc.Outputs[o], k, g)
-						return
-					}
-					continue
-				}
-				if w := refOut[ci][o][k]; !simref.SameBits(g, w) {
-					r.Failf("%s N=%d P=%d B=%d T=%d: output[cell %d, %s, t %d] = %v, the cell run alone (param set %d, input block %d) gives %v",
-						c.Model, c.N, P, B, c.T, ci, desc.Outputs[o], k, g, ci%P, ci%B, w)
-					return
-				}
-			}
-		}
-	}
-	gs := sread()
-	for i := 0; i < c.N; i++ {
-		for j := 0; j < width; j++ {
-			if g, w := gs[i*width+j], refState[i][j]; !simref.SameBits(g, w) {
-				r.Failf("%s N=%d P=%d B=%d: final state[cell %d, %d] = %v, the cell run alone gives %v", c.Model, c.N, P, B, i, j, g, w)
-				return
-			}
-		}
-	}
-	if d := simref.DiffBits("inputs", iread(), inFlat); d != "" {
-		r.Failf("%s: Run modified its inputs: %s", c.Model, d)
-		return
-	}
-	if d := simref.DiffBits("parameters", pread(), pmFlat); d != "" {
-		r.Failf("%s: Run modified its parameters: %s", c.Model, d)
-		return
-	}
-	return
-}
-
-func TestVectorisedRunAllModels(t *testing.T) { pbt.Run(t, genFor(""), check) }
+func TestVectorisedRunAllModels(t *testing.T) { pbt.Run(t, vrun.GenFor("", 1, 8), vrun.Check) }
 
 // Round-robin over the catalogue so that no model is starved (thorough tier).
 func TestVectorisedRunPerModel(t *testing.T) {
@@ -313,7 +21,7 @@ func TestVectorisedRunPerModel(t *testing.T) {
 		t.Skip("thorough only")
 	}
 	if pbt.ReplayOnly() {
-		pbt.Run(t, genFor(""), check)
+		pbt.Run(t, vrun.GenFor("", 1, 8), vrun.Check)
 		return
 	}
 	sh, n := pbt.Shard()
@@ -322,7 +30,7 @@ func TestVectorisedRunPerModel(t *testing.T) {
 			continue
 		}
 		name := name
-		t.Run(name, func(t *testing.T) { pbt.Run(t, genFor(name), check) })
+		t.Run(name, func(t *testing.T) { pbt.Run(t, vrun.GenFor(name, 1, 8), vrun.Check) })
 	}
 }
 
@@ -340,9 +48,9 @@ func genInit(t *rapid.T) InitCase {
 		name = rapid.SampledFrom([]string{"GR4J", "Lag"}).Draw(t, "cm")
 	}
 	c := InitCase{Model: name, N: rapid.IntRange(1, 8).Draw(t, "N")}
-	P := count(t, c.N, "P")
+	P := vrun.Count(t, c.N, "P")
 	for i := 0; i < P; i++ {
-		c.Cells = append(c.Cells, fromCell(simref.DrawCell(t, name)))
+		c.Cells = append(c.Cells, vrun.FromCell(simref.DrawCell(t, name)))
 	}
 	return c
 }
@@ -352,7 +60,7 @@ func checkInit(c InitCase) (r pbt.Result) {
 	desc := m.Description()
 	cells := make([]simref.Cell, len(c.Cells))
 	for i := range cells {
-		cells[i] = toCell(c.Cells[i])
+		cells[i] = vrun.ToCell(c.Cells[i])
 	}
 	r.Label("init:" + c.Model)
 	rows := make([][]float64, c.N)
@@ -416,5 +124,3 @@ func lens(r [][]float64) []int {
 }
 
 func TestInitialiseStates(t *testing.T) { pbt.Run(t, genInit, checkInit) }
-
-var _ = unsafe.Pointer(nil)
